@@ -204,7 +204,9 @@ func (v *VerifClient) UpIDs() []string {
 type VerifDownInfo struct {
 	ID     string
 	Kinds  []string
+	Tracks []string // ids of the publisher's tracks being forwarded
 	Source string
+	State  string // signalling state of the PeerConnection
 }
 
 func (v *VerifClient) Downs() []VerifDownInfo {
@@ -213,13 +215,16 @@ func (v *VerifClient) Downs() []VerifDownInfo {
 	var ds []VerifDownInfo
 	for id, dn := range v.C.down {
 		dn.mu.Lock()
-		var kinds []string
+		var kinds, tracks []string
 		for _, t := range dn.tracks {
 			kinds = append(kinds, t.track.Kind().String())
+			if rt, ok := t.remote.(*rtpUpTrack); ok {
+				tracks = append(tracks, rt.track.ID()+rt.track.RID())
+			}
 		}
 		dn.mu.Unlock()
 		src, _ := dn.remote.User()
-		ds = append(ds, VerifDownInfo{id, kinds, src})
+		ds = append(ds, VerifDownInfo{id, kinds, tracks, src, dn.pc.SignalingState().String()})
 	}
 	sort.Slice(ds, func(i, j int) bool { return ds[i].ID < ds[j].ID })
 	return ds
